@@ -22,6 +22,7 @@
 // the value exactly, else sign and order of magnitude).  Family "session":
 // several Execute calls on ONE interp.Interpreter, the first rejected at
 // set-up, then the same Funcs again or the corrected function (session.go).
+// Families "position" and "keep": calls inside whole programs (program.go).
 package c17
 
 import (
@@ -841,8 +842,15 @@ func Replay(raw json.RawMessage) hx.Outcome {
 	var probe struct {
 		Fam string `json:"fam"`
 	}
-	if err := json.Unmarshal(raw, &probe); err == nil && probe.Fam == "session" {
-		return ReplaySession(raw)
+	if err := json.Unmarshal(raw, &probe); err == nil {
+		switch probe.Fam {
+		case "session":
+			return ReplaySession(raw)
+		case "position":
+			return ReplayPosition(raw)
+		case "keep":
+			return ReplayKeep(raw)
+		}
 	}
 	var c Case
 	if err := json.Unmarshal(raw, &c); err != nil || c.Outcome.O == "" {
